@@ -297,7 +297,7 @@ def replay(ctx, doc):
     inp = doc["input"]
     if "truth" in inp:
         d = inp["truth"]
-        rows = P.Truth(d["dt"], d["t0"], d["sy"], d["Z"], d["rain"], d["level"], d["et"], d["events"], d["s"], d["j"]).rows()
+        rows = P.Truth.from_description(d).rows()
     else:
         r = inp["record"]
         rows = gen.Record(r["dt"], r["t0"], r["rain"], r["level"], set(r["removed"]), r["pre"], r["post"], phase=r.get("phase", 0)).rows()
